@@ -12,6 +12,7 @@ pub mod c03;
 pub mod c04;
 pub mod c05;
 pub mod c06;
+pub mod c07;
 pub mod c13;
 pub mod c14;
 
@@ -46,7 +47,7 @@ pub struct CheckDef {
 }
 
 pub fn all() -> Vec<CheckDef> {
-    vec![c01::def(), c02::def(), c03::def(), c04::def(), c05::def(), c06::def(), c13::def(), c14::def()]
+    vec![c01::def(), c02::def(), c03::def(), c04::def(), c05::def(), c06::def(), c07::def(), c13::def(), c14::def()]
 }
 
 pub fn find(id: &str) -> Option<CheckDef> {
